@@ -140,6 +140,61 @@ def docFcSource (p : Present) : FcSrc :=
   else if p.fileForceSets then (if p.produceFc then .produced else .none)
   else .none
 
+/-! ### what is recomputed on load
+
+* `select_and_extract_force_constants` (l.282-286) / `_read_force_constants_file` (l.466-469):
+  force constants from any source are converted to the layout `is_compact_fc` asks for;
+* `load_helper.produce_force_constants` (l.314-335): produced with
+  `calculate_full_force_constants = not is_compact_fc` and `fc_calculator`, then symmetrised iff
+  `symmetrize_fc` — force constants that were *read* are never symmetrised;
+* `interface/fc_calculator.py`: `fc_calculator=None` means the traditional finite-difference
+  solver, which rejects type-2 datasets (`ForceCalculatorRequiredError`).                 ↦ `recompute` -/
+
+inductive Solver | traditional | symfc | alm
+  deriving DecidableEq, Repr
+
+/-- options of `load` and layouts of the sources that do not influence *which* source wins -/
+structure Opts where
+  isCompactFc : Bool        -- `is_compact_fc=` (default True)
+  symmetrizeFc : Bool       -- `symmetrize_fc=` (default True)
+  fcCalculator : Option Solver
+  yamlFcCompact : Bool      -- layout of the force constants in the yaml file
+  argFcCompact : Bool       -- … in the file named by `force_constants_filename`
+  fileFcCompact : Bool      -- … in FORCE_CONSTANTS
+  hdf5Compact : Bool        -- … in force_constants.hdf5
+  datasetType2 : Bool       -- the dataset that wins is of type 2
+  deriving DecidableEq, Repr
+
+structure Recomputed where
+  fcCompact : Option Bool   -- layout of `Phonopy.force_constants` after load (`none`: no force constants)
+  converted : Bool          -- a full↔compact conversion was applied to force constants that were read
+  produced : Bool
+  symmetrized : Bool
+  solver : Option Solver
+  raises : Bool             -- `load` raises ForceCalculatorRequiredError
+  deriving DecidableEq, Repr
+
+def sourceLayout (o : Opts) : FcSrc → Option Bool
+  | .yaml => some o.yamlFcCompact
+  | .arg => some o.argFcCompact
+  | .fileText => some o.fileFcCompact
+  | .fileHdf5 => some o.hdf5Compact
+  | _ => none
+
+def recompute (p : Present) (o : Opts) : Recomputed :=
+  match fcSource p with
+  | .none => { fcCompact := none, converted := false, produced := false, symmetrized := false, solver := none, raises := false }
+  | .produced =>
+    let sv := o.fcCalculator.getD .traditional
+    if o.datasetType2 && sv == .traditional then
+      { fcCompact := none, converted := false, produced := false, symmetrized := false, solver := some sv, raises := true }
+    else
+      { fcCompact := some o.isCompactFc, converted := false, produced := true, symmetrized := o.symmetrizeFc,
+        solver := some sv, raises := false }
+  | src =>
+    { fcCompact := some o.isCompactFc, converted := sourceLayout o src != some o.isCompactFc, produced := false,
+      symmetrized := false, solver := none, raises := false }
+
 /-! ### `Phonopy.save` at the same level -/
 
 /-- what a `Phonopy` object holds (as far as save/load decisions go) -/
